@@ -415,6 +415,32 @@ pub fn run<K: Kmer + Send + Sync>(c: &GCase) -> Outcome {
                     o.fail("fix-exts-wrong", format!("[direct] fix_exts(valid-node mask {:b}): node {} = {} keeps L{:?} R{:?}, want L{:?} R{:?}", mask, i, ascii(&gv.nodes[i].seq), after.nodes[i].l, after.nodes[i].r, wl, wr));
                 }
             }
+            // answers must come from the graph that is asked, as it is NOW: (a) the same (node, side) query
+            // alternating between the original and the pruned graph; (b) query - mutate - same query: after
+            // fix_exts(Some(empty set)) the edge list just reported must be gone, and after the extension sets are
+            // written back (public field) it must be back
+            if nn <= 3 || mask + 1 == (1 << nn) {
+                let q = |gr: &DebruijnGraph<K, u16>, i: usize, side: Side| -> Vec<EdgeV> { gr.get_node(i).edges(dir_of(side)).into_iter().map(|(t, s, f)| (t, side_of(s), f)).collect() };
+                let saved = gg.base.exts.clone();
+                let empty = BitSet::with_capacity(nn);
+                for i in 0..nn {
+                    for side in [Side::L, Side::R] {
+                        o.transitions += 1;
+                        let (a1, b1, a2) = (q(&g, i, side), q(&gg, i, side), q(&g, i, side));
+                        if &a1 != gv.nodes[i].edges(side) || &a2 != gv.nodes[i].edges(side) || &b1 != after.nodes[i].edges(side) {
+                            o.fail("edge-query-depends-on-history", format!("[direct] node {} side {:?}: asking the original and the fix_exts(mask {:b}) graph alternately gives {:?} / {:?} / {:?}; asked on their own they report {:?} and {:?}", i, side, mask, a1, b1, a2, gv.nodes[i].edges(side), after.nodes[i].edges(side)));
+                        }
+                        let _asked_just_before = q(&gg, i, side);
+                        gg.fix_exts(Some(&empty));
+                        let gone = q(&gg, i, side);
+                        gg.base.exts = saved.clone();
+                        let back = q(&gg, i, side);
+                        if !gone.is_empty() || &back != after.nodes[i].edges(side) {
+                            o.fail("edge-query-depends-on-history", format!("[direct] node {} side {:?} of the fix_exts(mask {:b}) graph: edges {:?}; after fix_exts(no valid node) {:?} (want none); after writing the extension sets back {:?}", i, side, mask, after.nodes[i].edges(side), gone, back));
+                        }
+                    }
+                }
+            }
             // a SECOND pruning on the pruned graph: fix_exts(None) must change nothing (everything left resolves),
             // fix_exts(Some(mask2)) must leave exactly what resolves into mask AND mask2 (every mask2 for <= 3 nodes)
             let mut seconds: Vec<Option<u32>> = vec![None];
